@@ -4,6 +4,7 @@ package conc
 
 import (
 	"bytes"
+	"crypto/sha256"
 	"fmt"
 
 	"github.com/piotrnar/gocoin/lib/btc"
@@ -73,4 +74,111 @@ func (w *World) TxIds() (ids []int) {
 		ids = append(ids, id)
 	}
 	return
+}
+
+// ------------------------------------------------------------------ scripts that carry signature operations
+
+// Script kinds of the sigop family (C12: the pool's recorded SigopsCost must be exact and block assembly cuts on it).
+const (
+	KindP2SHSig     = 1 // P2SH, redeem script = SigopScript(tag, n): valid without signatures, n x OP_CHECKMULTISIG counted
+	KindP2WSHSig    = 2 // P2WSH, witness script = SigopScript(tag, n)
+	KindP2SHP2WSH   = 3 // P2SH-wrapped P2WSH of the same script
+	KindP2WPKH      = 4 // pay to witness key hash (signed with gocoin's signer)
+	KindPlainP2SH   = 5 // the concretiser's anyone-can-spend P2SH (no sigops)
+	opIF, opELSE    = 0x63, 0x67
+	opENDIF         = 0x68
+	opCHECKMULTISIG = 0xae
+)
+
+// SigopScript: <tag> DROP 1 IF 1 ELSE n x CHECKMULTISIG ENDIF - the executed branch leaves a single true value,
+// the branch that is never executed carries the signature operations (20 each, no preceding key count).
+func SigopScript(tag, n int) []byte {
+	sc := []byte{4, 0x5c, byte(tag >> 16), byte(tag >> 8), byte(tag), opDROP, btc.OP_1, opIF, btc.OP_1, opELSE}
+	sc = append(sc, bytes.Repeat([]byte{opCHECKMULTISIG}, n)...)
+	return append(sc, opENDIF)
+}
+
+// KindPkScript returns the output script of a sigop-family output.
+func KindPkScript(kind, tag, n int) []byte {
+	switch kind {
+	case KindP2SHSig:
+		return append(append([]byte{btc.OP_HASH160, 20}, hash160(SigopScript(tag, n))...), btc.OP_EQUAL)
+	case KindP2WSHSig:
+		h := sha256.Sum256(SigopScript(tag, n))
+		return append([]byte{0, 32}, h[:]...)
+	case KindP2SHP2WSH:
+		h := sha256.Sum256(SigopScript(tag, n))
+		return append(append([]byte{btc.OP_HASH160, 20}, hash160(append([]byte{0, 32}, h[:]...))...), btc.OP_EQUAL)
+	case KindP2WPKH:
+		return PkScript(tag, StP2WPKH)
+	}
+	return PkScript(tag, StP2SH)
+}
+
+// KindOut describes one output of a sigop-family transaction.
+type KindOut struct {
+	Kind, Tag, N int
+	Sat          uint64
+	BareSigs     int // > 0: an additional zero-value output "BareSigs x OP_CHECKSIG" follows (legacy sigops of the tx itself)
+}
+
+// KindTx builds a transaction spending the given outputs of `parent` (a transaction built by KindTx, or nil with
+// coinbase = height of a base coinbase) and creating outs.
+func (w *World) KindTx(parent *btc.Tx, parentOuts []KindOut, vouts []int, coinbase int, outs []KindOut) *btc.Tx {
+	tx := &btc.Tx{Version: 2}
+	if parent == nil {
+		ti := &btc.TxIn{Sequence: 0xffffffff}
+		ti.Input.Hash = w.realTxid(coinbase)
+		ti.ScriptSig = pushData(innerScript(0))
+		tx.TxIn = []*btc.TxIn{ti}
+	}
+	anyWit := false
+	for _, v := range vouts {
+		ti := &btc.TxIn{Sequence: 0xffffffff}
+		ti.Input.Hash = parent.Hash.Hash
+		ti.Input.Vout = uint32(v)
+		po := parentOuts[v]
+		switch po.Kind {
+		case KindP2SHSig:
+			ti.ScriptSig = pushData(SigopScript(po.Tag, po.N))
+		case KindP2SHP2WSH:
+			h := sha256.Sum256(SigopScript(po.Tag, po.N))
+			ti.ScriptSig = pushData(append([]byte{0, 32}, h[:]...))
+			anyWit = true
+		case KindP2WSHSig, KindP2WPKH:
+			anyWit = true
+		default:
+			ti.ScriptSig = pushData(innerScript(po.Tag))
+		}
+		tx.TxIn = append(tx.TxIn, ti)
+	}
+	for _, o := range outs {
+		tx.TxOut = append(tx.TxOut, &btc.TxOut{Value: o.Sat, Pk_script: KindPkScript(o.Kind, o.Tag, o.N)})
+	}
+	for _, o := range outs { // the bare CHECKSIG outputs come last: output i of the transaction is outs[i]
+		if o.BareSigs > 0 {
+			tx.TxOut = append(tx.TxOut, &btc.TxOut{Value: 0, Pk_script: bytes.Repeat([]byte{btc.OP_CHECKSIG}, o.BareSigs)})
+		}
+	}
+	if anyWit {
+		tx.SegWit = make([][][]byte, len(tx.TxIn))
+		for i := range tx.SegWit {
+			tx.SegWit[i] = [][]byte{}
+		}
+		tx.AllocVerVars()
+		for i, v := range vouts {
+			po := parentOuts[v]
+			switch po.Kind {
+			case KindP2WSHSig, KindP2SHP2WSH:
+				tx.SegWit[i] = [][]byte{SigopScript(po.Tag, po.N)}
+			case KindP2WPKH:
+				pub := btc.PublicFromPrivate(privKey(po.Tag), true)
+				sc := append(append([]byte{opDUP, btc.OP_HASH160, 20}, hash160(pub)...), opEQUALVERIFY, btc.OP_CHECKSIG)
+				if e := tx.SignWitness(i, sc, po.Sat, 1, pub, privKey(po.Tag)); e != nil {
+					panic(e)
+				}
+			}
+		}
+	}
+	return finishTx(tx)
 }
